@@ -3,7 +3,9 @@
 (* Trace validation for rxsci.container.csv.  A batch of recorded          *)
 (* executions of the real dump() -> line.unframe() -> load(parser) (or     *)
 (* dump_to_file / load_from_file) is read from IOEnv.TRACE_FILE:           *)
-(*   [{sep, esc, schema, rows: [{fields, line, merged, parsed}], extra}]   *)
+(*   [{sep, esc, variant, rows: [{fields, line, merged, parsed}], extra}]  *)
+(* (variant: which transcription of merge_escape_parts the harness expects *)
+(* to be in sync with the tree under test; informational only).            *)
 (* Text is a sequence of code points.  A value is tagged:                  *)
 (*   [k |-> "s", v |-> text]                       str                     *)
 (*   [k |-> "i", v |-> text of str(int)]           int (64 bit and more)   *)
@@ -89,7 +91,7 @@ MergedInSync(ln, r) ==
 TraceInit ==
     /\ tid \in 1..Len(Traces)
     /\ l = 0 /\ st = "load" /\ nbad = 0 /\ insync = TRUE
-    /\ sep = Traces[tid].sep /\ esc = Traces[tid].esc
+    /\ sep = Traces[tid].sep /\ esc = Traces[tid].esc /\ variant = Traces[tid].variant
     /\ row = <<>> /\ stage = "parsed" /\ line = <<>> /\ result = Ok(<<>>)
 
 (* the environment of Csv (AddSymbol, AddField) is replaced by the logged row *)
@@ -98,7 +100,7 @@ TraceLoad ==
     /\ row' = RowOf(R.fields)
     /\ stage' = "build"
     /\ st' = "dump"
-    /\ UNCHANGED <<sep, esc, line, result, tid, l, nbad, insync>>
+    /\ UNCHANGED <<conf, line, result, tid, l, nbad, insync>>
 
 TraceDump ==
     /\ st = "dump"
@@ -133,6 +135,6 @@ TraceSpec == TraceInit /\ [][TraceNext]_tvars
 
 (* the characterization of the repository's defect, proved on the model over
    the small alphabet, must also hold for the model on every real row *)
-TraceCharacterization == Variant = "repo" => Characterization
-TraceRoundTrip == Variant = "parity" => RoundTrip
+TraceCharacterization == Characterization
+TraceRoundTrip == RoundTrip
 =============================================================================
